@@ -76,8 +76,9 @@ Proof.
     erewrite bind_run by (apply wr_hptr_run; exact Hah1).
     set (s2 := set_hptr s1 (upd (hptr s1) h None)).
     assert (Hi2 : inv X W D T (upd2 G o SH (ring_remove h (G o SH))) s2).
-    { eapply inv_drop_X; [eapply inv_set_hptr; [exact Hi1|now left|]|exact Hnx| |].
+    { eapply inv_drop_X; [eapply inv_set_hptr; [exact Hi1|now left| |]|exact Hnx| |].
       - rewrite S2. exists k. exact Hth.
+      - intros d0 st _ _ _ _ E. discriminate.
       - intros _. unfold home, s2. simpl_st. rewrite S2, Hth, upd_same. split; [reflexivity|discriminate].
       - intros v _. unfold s2. simpl_st. exact Hah1. }
     destruct (IH f X W D T (upd2 G o SH (ring_remove h (G o SH))) s2 o) as (s' & Hex & Hi' & Hsh & Hal & Hob & Hoi & Hdl & Hpr); try assumption.
